@@ -42,7 +42,7 @@ def REQUIRED(tier):
 
 def _required(tier):
     return ["unpack_checks", "pack_checks", "roundtrip_checks", "caller_buffer_checks", "canary_audits", "rejections_checked",
-            "default_order_file_roundtrips", "spot_checks_large", "spelling:alias", "large_order_switches_in_process", "strided_output_buffer_calls", "writer:calls_of_shrinking_size", "reader:unpack_across_a_file_boundary"]
+            "default_order_file_roundtrips", "spot_checks_large", "spelling:alias", "large_order_switches_in_process", "strided_output_buffer_calls", "writer:calls_of_shrinking_size", "reader:unpack_across_a_file_boundary", "rejections_checked_under_python_O"]
 
 
 def EXHAUSTIVE(tier):
@@ -57,6 +57,7 @@ def cases(tier, seed):
             yield {"kind": "pack", "nbits": nbits, "order": order, "length": length, "seed": seed}
         yield {"kind": "large", "nbits": nbits, "order": order, "seed": seed}
     yield {"kind": "reject"}
+    yield {"kind": "reject_optimised"}
     for nbits in (1, 2, 4):
         yield {"kind": "default", "nbits": nbits, "seed": seed}
     if tier == "thorough":
@@ -147,6 +148,61 @@ def _audit(ctx, frame, case, what):
         return False
     return True
 
+
+
+_OPT_CHILD = r"""
+import json, sys
+import numpy as np
+from sigpyproc.io import bits
+assert not __debug__
+out = {"checked": 0, "bad": []}
+def probe(name, fn):
+    out["checked"] += 1
+    try:
+        fn()
+    except ValueError:
+        return
+    except Exception as exc:
+        out["bad"].append([name, "raised " + type(exc).__name__]); return
+    out["bad"].append([name, "accepted"])
+good = (np.arange(8) % 2).astype(np.uint8)
+for f in (bits.unpack, bits.pack):
+    for dt in (np.int8, np.uint16, np.float32):
+        probe(f"dtype:{f.__name__}", lambda: f(np.zeros(8, dtype=dt), 1, bitorder="big"))
+    for nb in (0, 3, 8):
+        probe(f"nbits:{f.__name__}", lambda: f(good.copy(), nb, bitorder="big"))
+    for bo in ("", "x", None):
+        probe(f"bitorder:{f.__name__}", lambda: f(good.copy(), 1, bitorder=bo))
+for nbits in (1, 2, 4):
+    per = 8 // nbits
+    for order in ("big", "little"):
+        for n in (1, 3, 8):
+            for delta in (-1, 1, per):
+                big = np.full(4096, 0xEE, dtype=np.uint8)          # the buffer is a slice of our own memory: an overrun stays inside it
+                buf = big[1024:1024 + max(0, n * per + delta)]
+                src = (np.arange(n) * 37 % 256).astype(np.uint8)
+                probe(f"bufsize:unpack:{nbits}:{order}", lambda: bits.unpack(src, nbits, buf, bitorder=order))
+                if np.any(big != 0xEE):
+                    out["bad"].append([f"bufsize:unpack:{nbits}:{order}", "memory-written"])
+                big2 = np.full(4096, 0xEE, dtype=np.uint8)
+                pbuf = big2[1024:1024 + max(0, n + (1 if delta > 0 else -1))]
+                usrc = (np.arange(n * per) % (1 << nbits)).astype(np.uint8)
+                probe(f"bufsize:pack:{nbits}:{order}", lambda: bits.pack(usrc, nbits, pbuf, bitorder=order))
+                if np.any(big2 != 0xEE):
+                    out["bad"].append([f"bufsize:pack:{nbits}:{order}", "memory-written"])
+# and the round trip still holds in this interpreter mode
+for nbits in (1, 2, 4):
+    for order in ("big", "little"):
+        a = np.arange(256, dtype=np.uint8)
+        u = bits.unpack(a, nbits, bitorder=order)
+        per = 8 // nbits
+        sh = [(per - 1 - i) * nbits for i in range(per)] if order == "big" else [i * nbits for i in range(per)]
+        want = np.array([[(int(b) >> s) & ((1 << nbits) - 1) for s in sh] for b in a], dtype=np.uint8).ravel()
+        out["checked"] += 1
+        if not np.array_equal(u, want) or not np.array_equal(bits.pack(u, nbits, bitorder=order), a):
+            out["bad"].append([f"roundtrip:{nbits}:{order}", "values"])
+print("RESULT " + json.dumps(out))
+"""
 
 def run_case(case, ctx):
     if case["kind"] == "giant":
@@ -355,6 +411,28 @@ def _run_case(case, ctx):
                         _audit(ctx, fr, case, "reject")
         ctx.nontrivial_case({"k": "reject-table"})
         ctx.nontrivial_case({"k": "reject-bufsizes"})
+        return
+    if kind == "reject_optimised":
+        # the same rejection table in an interpreter started with -O (assert statements and `if __debug__` blocks compiled away):
+        # argument validation that a caller relies on may not live in code that an optimised interpreter drops
+        import json as _json, subprocess, sys as _sys
+
+        r = subprocess.run([_sys.executable, "-O", "-c", _OPT_CHILD], capture_output=True, text=True, timeout=600)
+        line = [l for l in r.stdout.splitlines() if l.startswith("RESULT ")]
+        if r.returncode != 0 or not line:
+            if r.returncode < 0:
+                ctx.evaluated()
+                ctx.violation(f"optimised-interpreter:crash:signal{-r.returncode}", f"the rejection table under python -O killed the interpreter: {r.stderr[-300:]}", case)
+            else:
+                ctx.skip(f"optimised-interpreter child failed to run: rc={r.returncode} {r.stderr[-200:]}")
+            return
+        res = _json.loads(line[0][7:])
+        for _ in range(res["checked"]):
+            ctx.evaluated()
+        ctx.count("rejections_checked_under_python_O", res["checked"])
+        for name, what in res["bad"][:20]:
+            ctx.violation(f"optimised-interpreter:{name.split(':')[0]}:{what.split()[0]}", f"under python -O: {name}: {what}", case)
+        ctx.nontrivial_case({"k": "reject-table-python-O"})
         return
     if kind == "default":
         from sigpyproc.io.bits import BitsInfo
